@@ -91,8 +91,30 @@ fn main() {
     let y = KeyRegistry::<usize>::init();
     let y = KeyRegistry::add_onetime_bundle(y, 0usize, onetime).expect("valid when added");
     let y = KeyRegistry::add_longterm_bundle(y, 0usize, longterm).expect("valid when added");
+    // member 1: a stack of one-time bundles in which SEVERAL consecutive ones expire while stored, on top of a long-lived one
+    let mut y = y;
+    for (k, until) in [(0u64, t + 3600), (1, t + 2), (2, t + 2), (3, t + 2)] {
+        let (p, sg) = mk_prekey(t - 60, until);
+        let ots = SecretKey::from_bytes(rng.random_array().unwrap());
+        y = KeyRegistry::add_onetime_bundle(y, 1usize, OneTimeKeyBundle::new(identity.verifying_key().unwrap(), p, sg, Some(OneTimePreKey::new(ots.verifying_key().unwrap(), 10 + k)))).expect("valid when added");
+    }
     std::thread::sleep(Duration::from_secs(4));
-    n += 2;
+    n += 3;
+    let mut y = y;
+    for round in 0..2 {
+        let (y2, got) = <KeyRegistry<usize> as PreKeyRegistry<usize, OneTimeKeyBundle>>::key_bundle(y, &1usize).unwrap();
+        y = y2;
+        match got {
+            Some(b) => if b.verify().is_err() && reported.insert("expired-onetime-bundle-returned") {
+                rp_core::report(true, "expired-onetime-bundle-returned", json!({"stored_one_time_bundles(oldest first)": ["valid for 1 h", "valid for 2 s", "valid for 2 s", "valid for 2 s"], "requested_after_s": 4, "request": round}), json!({"returned": true, "returned_bundle_verifies": false}),
+                    &["key_registry::PreKeyRegistry@KeyRegistry::key_bundle#1.ensures#returned_bundle_currently_valid", "key_registry::PreKeyRegistry@KeyRegistry::key_bundle#1.safety"]);
+            },
+            None => if round == 0 && reported.insert("valid-onetime-bundle-not-returned") {
+                rp_core::report(true, "valid-onetime-bundle-not-returned", json!({"stored_one_time_bundles(oldest first)": ["valid for 1 h", "valid for 2 s", "valid for 2 s", "valid for 2 s"], "requested_after_s": 4}), json!({"returned": false}),
+                    &["key_registry::PreKeyRegistry@KeyRegistry::key_bundle#1.ensures#returned_bundle_currently_valid", "key_registry::PreKeyRegistry@KeyRegistry::key_bundle#1.safety"]);
+            },
+        }
+    }
     let (y, got) = <KeyRegistry<usize> as PreKeyRegistry<usize, OneTimeKeyBundle>>::key_bundle(y, &0usize).unwrap();
     if let Some(b) = got {
         if b.verify().is_err() && reported.insert("expired-onetime-bundle-returned") {
